@@ -19,6 +19,9 @@ type pairDesc struct {
 	AttachMs int     `json:"attach_ms"` // when the first client is attached, after the writer started
 	MediaMs  int     `json:"media_ms"`  // media time spanned by the history
 	NtpBase  int64   `json:"ntp_base"`
+	// a client that falls behind: every data callback of the first client that delivers is held from its first
+	// callback on until the leading stream has completed Lag further segments (0: no hold), see runPair
+	Lag int `json:"lag,omitempty"`
 }
 
 var aacRates = []int64{8000, 16000, 22050, 32000, 44100, 48000, 96000}
@@ -44,6 +47,18 @@ type force struct {
 	// the client is attached attachAfterChangeMs later (while the segment the change opened is still open)
 	singleChangePct     int
 	attachAfterChangeMs int
+	// SegmentCount (0: drawn) and the moment the client is attached (0: attachPct / drawn)
+	segCount int
+	attachMs int
+	// the client is held in its data callbacks while the writer completes SegmentCount + 2 + lagExtra further segments
+	lag      bool
+	lagExtra int
+	// H264 / H265: the parameter changes of this pair (kind paramKind, while changesUntilPct) do not come with a key
+	// frame: the new parameter sets first arrive in an access unit that is not a random access one - "trail":
+	// together with the last picture before the next key frame, "own": in an access unit of their own just before
+	// that picture - and the key frame that follows repeats them (earlyRepeat) or carries no parameter sets at all
+	early       string
+	earlyRepeat bool
 }
 
 func fixedScenarios() []force {
@@ -99,6 +114,129 @@ func fixedScenarios() []force {
 	}
 }
 
+// lateScenarios come after the random pairs (ids that were never used: the random pairs keep theirs).
+//
+// lag-*: SegmentCount 3..5 (MPEG-TS / fMP4), the client attached once three segments are listed and held inside
+// its data callbacks while the writer completes SegmentCount + 2 further segments: the segment after the last
+// one it downloaded has left the playlist when it is released. It may stop with an error; it must not skip.
+//
+// early-*: H264 / H265 parameter changes whose new parameter sets are sent ahead of the key frame they apply to
+// (with the last picture before it, or in an access unit of their own), the key frame repeats them or carries
+// none; the client is attached after the changes and must report the muxer's parameters, not those of Start.
+func lateScenarios() []force {
+	aac := func(sr int64) tcfgA { return tcfgA{Kind: kAAC, Rate: sr, SRate: sr, Params0: 2} }
+	opus := func() tcfgA { return tcfgA{Kind: kOpus, Rate: 48000, SRate: 48000} }
+	vid := func(k int, p int64) tcfgA { return tcfgA{Kind: k, Rate: 90000, Params0: p} }
+	lag := func(name string, variant, segCount int, target string, tracks ...tcfgA) force {
+		return force{name: name, variant: variant, tracks: tracks, target: target, segCount: segCount, lag: true,
+			gop: 5, attachMs: 1900, mediaMs: 2900 + (segCount+2)*650}
+	}
+	early := func(name string, variant int, target, kind, mode string, repeat bool, tracks ...tcfgA) force {
+		// the client starts three segments behind the live edge: the changes end at 1.8 s, it is attached at 4.5 s
+		// (a muxer that does not rotate at these changes has segments of 0.5 - 0.7 s)
+		return force{name: name, variant: variant, tracks: tracks, target: target, paramKind: kind, early: mode, earlyRepeat: repeat,
+			changesUntilPct: 30, attachPct: 75, gop: 8, mediaMs: 6000}
+	}
+	return []force{
+		lag("lag-fmp4-h264-seg3", 2, 3, "index", vid(kH264, 1)),
+		lag("lag-ts-h264-seg3", 1, 3, "index", vid(kH264, 1)),
+		lag("lag-fmp4-h265-aac-seg4", 2, 4, "index", vid(kH265, 0), aac(44100)),
+		lag("lag-ts-aac-h264-seg4", 1, 4, "media:0", aac(48000), vid(kH264, 1)),
+		lag("lag-fmp4-opus-av1-seg5", 2, 5, "index", opus(), vid(kAV1, 0)),
+		lag("lag-ts-h264-aac-seg5", 1, 5, "index", vid(kH264, 1), aac(32000)),
+		lag("lag-fmp4-vp9-seg3-media", 2, 3, "media:0", vid(kVP9, 0)),
+		lag("lag-fmp4-aac-seg4", 2, 4, "index", aac(48000)),
+		early("early-h265-sps-trail-norepeat-fmp4", 2, "index", "sps", "trail", false, vid(kH265, 0)),
+		early("early-h265-all-trail-repeat-ll", 3, "index", "all", "trail", true, vid(kH265, 0), aac(48000)),
+		early("early-h265-pps-own-repeat-fmp4", 2, "media:0", "pps", "own", true, vid(kH265, 0)),
+		early("early-h265-vps-trail-norepeat-ll", 3, "index", "vps", "trail", false, vid(kH265, 4)),
+		early("early-h265-sps-own-norepeat-fmp4", 2, "index", "sps", "own", false, opus(), vid(kH265, 2)),
+		early("early-h264-pps-trail-norepeat-fmp4", 2, "index", "pps", "trail", false, vid(kH264, 1)),
+		early("early-h264-sps-own-repeat-ll", 3, "index", "sps", "own", true, vid(kH264, 1)),
+		early("early-h264-all-own-norepeat-fmp4", 2, "index", "all", "own", false, opus(), vid(kH264, 1)),
+		early("early-h264-all-trail-repeat-ll", 3, "media:0", "all", "trail", true, vid(kH264, 1)),
+	}
+}
+
+// extraScenario draws the i-th scenario of the two families above (even i: lag, odd i: early parameter sets) from
+// a generator of its own; the rest of the pair (frame rates, jitter, start time, unit sizes) is drawn by genPair.
+func extraScenario(seed uint64, i int) force {
+	x := rng.New(seed, uint64(i)+15485863)
+	audio := func() tcfgA {
+		if x.Bool(1, 2) {
+			return tcfgA{Kind: kOpus, Rate: 48000, SRate: 48000, Name: x.Intn(2), Lang: x.Intn(2)}
+		}
+		sr := aacRates[x.Intn(len(aacRates))]
+		return tcfgA{Kind: kAAC, Rate: sr, SRate: sr, Params0: 2, Name: x.Intn(2), Lang: x.Intn(2)}
+	}
+	var f force
+	if i%2 == 0 {
+		f.variant = 1 + x.Intn(2)
+		f.segCount = 3 + x.Intn(3)
+		f.lag, f.lagExtra = true, x.Intn(2)
+		f.gop = []int{3, 5, 8}[x.Intn(3)]
+		f.segMin = []int64{400e6, 500e6, 600e6}[x.Intn(3)]
+		v := tcfgA{Kind: kH264, Rate: 90000, Params0: 1}
+		if f.variant == 2 {
+			v.Kind = []int{kH264, kH265, kVP9, kAV1}[x.Intn(4)]
+			if v.Kind != kH264 {
+				v.Params0 = int64(x.Intn(12))
+			}
+		}
+		f.tracks = []tcfgA{v}
+		if x.Bool(1, 2) {
+			a := audio()
+			if f.variant == 1 {
+				a = tcfgA{Kind: kAAC, Rate: 44100, SRate: 44100, Params0: 2}
+			}
+			if x.Bool(1, 2) {
+				f.tracks = []tcfgA{a, v}
+			} else {
+				f.tracks = []tcfgA{v, a}
+			}
+		}
+		f.attachMs = 1600 + x.Intn(600)
+		f.mediaMs = 3100 + (f.segCount+2+f.lagExtra)*int(f.segMin/1e6+200)
+		f.name = fmt.Sprintf("x-lag-%s-seg%d", variantName(f.variant), f.segCount)
+	} else {
+		f.variant = 2 + x.Intn(2)
+		v := tcfgA{Kind: kH264, Rate: 90000, Params0: 1}
+		if x.Bool(2, 3) {
+			v = tcfgA{Kind: kH265, Rate: 90000, Params0: int64(x.Intn(12))}
+		}
+		f.tracks = []tcfgA{v}
+		if x.Bool(1, 3) {
+			if x.Bool(1, 2) {
+				f.tracks = []tcfgA{audio(), v}
+			} else {
+				f.tracks = []tcfgA{v, audio()}
+			}
+		}
+		f.paramKind = []string{"pps", "sps", "vps", "all", ""}[x.Intn(5)]
+		f.early = []string{"trail", "own"}[x.Intn(2)]
+		f.earlyRepeat = x.Bool(1, 2)
+		f.gop = []int{3, 5, 8, 12}[x.Intn(4)]
+		f.mediaMs = 5500 + x.Intn(1500)
+		f.changesUntilPct = 20 + x.Intn(20)
+		if x.Bool(2, 3) {
+			f.attachPct = 70 + x.Intn(15) // else: attached at a drawn moment
+		}
+		if f.variant == 3 {
+			f.partMin = []int64{50e6, 100e6, 200e6}[x.Intn(3)]
+		}
+		f.name = fmt.Sprintf("x-early-%s-%s-%s", variantName(f.variant), kindNames[v.Kind], f.early)
+	}
+	f.target = "index"
+	if x.Bool(1, 3) {
+		for ti, t := range f.tracks {
+			if isVideoKind(t.Kind) {
+				f.target = fmt.Sprintf("media:%d", ti)
+			}
+		}
+	}
+	return f
+}
+
 func streamIDOf(h *history, ti int) string {
 	if h.Variant == 1 {
 		return "main"
@@ -144,6 +282,7 @@ func genPair(seed uint64, id int, f *force) pairDesc {
 func genPairR(seed uint64, id int, f *force, allowReorder bool) (pairDesc, bool) {
 	ok := true
 	r := rng.New(seed, uint64(id)+7919)
+	rx := r.Fork(0xC0913) // dimensions added later draw from here: what a seed produced before stays the same
 	var p pairDesc
 	p.ID, p.Seed = id, seed
 	h := &p.H
@@ -160,6 +299,9 @@ func genPairR(seed uint64, id int, f *force, allowReorder bool) (pairDesc, bool)
 	}
 	if r.Bool(1, 6) {
 		h.SegCount = 0 // default (7)
+	}
+	if f != nil && f.segCount != 0 {
+		h.SegCount = f.segCount
 	}
 	// 0.5 s and more; one pair in eight keeps segments shorter than 0.5 s (they rounded to
 	// EXT-X-TARGETDURATION:0 before fix 69594d6 - finding F20 - and must play now)
@@ -292,6 +434,11 @@ func genPairR(seed uint64, id int, f *force, allowReorder bool) (pairDesc, bool)
 		sinceKey int
 		params   pset
 		// H264 with reordering: display-order bookkeeping and the generator's own DTS extractor instance
+		// parameter sets sent ahead of the key frame: the next key frame carries none; an H265 access unit made of
+		// parameter sets alone was written (at most one per track: the oracle tells units apart by their bytes)
+		noRepeat bool
+		ownDone  bool
+		keys     int // key frames written so far
 		ex      *h264.DTSExtractor
 		bf      int   // at most this many B pictures between two anchors
 		pocBase int   // pic_order_cnt_lsb of the GOP's IDR picture
@@ -339,6 +486,58 @@ func genPairR(seed uint64, id int, f *force, allowReorder bool) (pairDesc, bool)
 		singleChangeFromNs = int64(p.MediaMs) * 1e6 * int64(f.singleChangePct) / 100
 	}
 	singleChangeDone := false
+	early := ""
+	if f != nil && f.early != "" {
+		early = f.early
+		paramChanges = false // no change comes with a key frame
+	}
+	if f != nil && f.attachMs != 0 {
+		p.AttachMs = f.attachMs
+	}
+	if f != nil && f.lag {
+		p.Lag = h.SegCount + 2 + f.lagExtra
+		if h.SegCount == 0 {
+			p.Lag += 7
+		}
+	}
+	next := func(v int64) int64 { return 1 + (v % 11) }
+	changeParams := func(s *tstate, k int, kind string) {
+		switch k {
+		case kH264: // spsOf depends on the group of four ids, ppsOf on the id
+			switch kind {
+			case "pps", "vps":
+				s.params.P = next(s.params.P)
+			case "sps":
+				s.params.S = (s.params.S + 4) % 12
+			default:
+				s.params.S, s.params.P = (s.params.S+4)%12, next(s.params.P)
+			}
+		case kH265:
+			switch kind {
+			case "pps":
+				s.params.P = next(s.params.P)
+			case "vps":
+				s.params.V = next(s.params.V)
+			case "sps":
+				s.params.S = next(s.params.S)
+			default:
+				s.params = pset{next(s.params.S), next(s.params.P), next(s.params.V)}
+			}
+		default: // VP9: the key frame's header fields; AV1: the sequence header
+			s.params = psetOfID(next(s.params.S))
+		}
+	}
+	carryParams := func(a *auA, s *tstate, k int) {
+		a.HasParams, a.Params = true, s.params.S
+		if isNALKind(k) {
+			if s.params.P != s.params.S {
+				a.PPSx = s.params.P + 1
+			}
+			if k == kH265 && s.params.V != s.params.S {
+				a.VPSx = s.params.V + 1
+			}
+		}
+	}
 	for i, t := range tracks {
 		s := &st[i]
 		s.params = psetOfID(t.Params0)
@@ -420,40 +619,50 @@ func genPairR(seed uint64, id int, f *force, allowReorder bool) (pairDesc, bool)
 					if kind == "" {
 						kind = []string{"pps", "sps", "vps", "all"}[r.Intn(4)]
 					}
-					next := func(v int64) int64 { return 1 + (v % 11) }
-					switch t.Kind {
-					case kH264: // spsOf depends on the group of four ids, ppsOf on the id
-						switch kind {
-						case "pps", "vps":
-							s.params.P = next(s.params.P)
-						case "sps":
-							s.params.S = (s.params.S + 4) % 12
-						default:
-							s.params.S, s.params.P = (s.params.S+4)%12, next(s.params.P)
-						}
-					case kH265:
-						switch kind {
-						case "pps":
-							s.params.P = next(s.params.P)
-						case "vps":
-							s.params.V = next(s.params.V)
-						case "sps":
-							s.params.S = next(s.params.S)
-						default:
-							s.params = pset{next(s.params.S), next(s.params.P), next(s.params.V)}
-						}
-					default: // VP9: the key frame's header fields; AV1: the sequence header
-						s.params = psetOfID(next(s.params.S))
-					}
+					changeParams(s, t.Kind, kind)
 				}
-				a.HasParams, a.Params = true, s.params.S
-				if isNALKind(t.Kind) {
-					if s.params.P != s.params.S {
-						a.PPSx = s.params.P + 1
+				carryParams(&a, s, t.Kind)
+				s.keys++
+				if s.noRepeat {
+					// the parameter sets in force were sent ahead of this key frame, which does not repeat them
+					s.noRepeat = false
+					a.HasParams, a.Params, a.PPSx, a.VPSx = false, 0, 0, 0
+				}
+			}
+			// (not before the first key frame: the muxer drops what precedes it, and its DTS extractor learns the
+			// parameter sets from the access units it is given)
+			if early != "" && !a.RA && isNALKind(t.Kind) && !t.Reorder && h.Variant != 1 && s.keys > 0 &&
+				s.sinceKey >= s.gop && len(s.pendB) == 0 { // the next unit of this track is a key frame
+				if rel := tsNs(s.dts, t.Rate) - startNs; rel < changesUntilNs {
+					kind := paramKind
+					if kind == "" {
+						kind = []string{"pps", "sps", "vps", "all"}[rx.Intn(4)]
 					}
-					if t.Kind == kH265 && s.params.V != s.params.S {
-						a.VPSx = s.params.V + 1
+					changeParams(s, t.Kind, kind)
+					mode := early
+					if mode == "own" && t.Kind == kH265 {
+						// an H265 access unit without a slice is written as a sample: the muxer's DTS extractor accepts
+						// it only under an SPS for which it returns the pts without reading a slice header
+						if ro, _ := h265ReorderOf(s.params.S); ro != 0 || s.ownDone {
+							mode = "trail"
+						}
 					}
+					if mode == "own" {
+						o := auA{Track: ti, PTS: s.dts, DTS: s.dts, ParamsOnly: true}
+						carryParams(&o, s, t.Kind)
+						if t.Kind == kH265 {
+							o.NonIDR = true
+							o.Units = []unitA{{ID: nextID}}
+							nextID++
+							s.dts += s.frameDur
+							s.ownDone = true
+						}
+						o.NTP = p.NtpBase + tsNs(o.DTS, t.Rate)
+						h.Ops = append(h.Ops, o)
+					} else {
+						carryParams(&a, s, t.Kind)
+					}
+					s.noRepeat = !f.earlyRepeat
 				}
 			}
 			a.DTS = s.dts
